@@ -235,6 +235,15 @@ def run(ctx):
             ctx.check(bool(resets), "PAIR", "C13:HINT-RESET:serialize_key:%s" % fld, "`%s` is cleared for the new entry before the composite-key branch saves it" % fld,
                       "serialize_key saves `%s` around a composite key without having cleared it first: the hint left by the enclosing `- ` item is restored after the key and the entry's value (a block mapping) is indented one level too shallow" % fld, config, ctx.where(sk, b))
         ctx.floor("PAIR.hint-resets", nh, 2, config)
+        # ... and after the composite key itself the `last_value_was_block` hint is *cleared*: what the key (or the previous
+        # entry) looked like must not decide where this entry's value starts (a stale `true` puts the value's first dash at column 0)
+        keycalls = [b for b, t in sk.calls() if t["f"].get("trait") == "serde::Serialize" and t["f"].get("name") == "serialize"]
+        lv = []
+        for b, i, s_ in sk.stmts():
+            if s_["k"] == "assign" and s_["p"]["pr"] and ser_field(sk, s_["p"]) == "last_value_was_block" and any(sk.dominates(kb, b) for kb in keycalls):
+                lv.append((b, sk.sym_rvalue(s_["rv"])))
+        ctx.check(bool(lv) and all(v == ("const", False, "bool") for b, v in lv), "PAIR", "C13:HINT-RESET:serialize_key:last_value_was_block-after-key", "after a composite key `last_value_was_block` is cleared",
+                  "serialize_key leaves / restores `last_value_was_block` after a composite key (%s) instead of clearing it: the layout of the previous entry decides where this entry's value starts" % [render(v) for b, v in lv], config, ctx.where(sk, lv[0][0] if lv else None))
         # SIBLING (dash emitters): every emitter that writes the `- ` marker of a block sequence element and then serializes
         # the element stages the same two hints the sequence serializer stages — the dash's depth (after_dash_depth) and the
         # inline-first hint (pending_inline_map) — so that a nested collection lays itself out relative to *that* dash; and
